@@ -1,8 +1,8 @@
 SPECIFICATION Spec
 CONSTANTS
   NodeKinds = {"numa4", "share3", "plain4", "numa6", "plain2"}
-  AllocKinds = {"b10", "b05", "b15", "b20", "u05", "u00"}
-  ReallocKinds = {"cpu+", "cpu-", "mem+", "mem-", "keep", "unbind", "bind"}
+  AllocKinds = {"b10", "b05", "b15", "b20", "u05", "u00", "ulim"}
+  ReallocKinds = {"cpu+", "cpu-", "mem+", "mem-", "keep", "unbind", "bind", "memlim+", "cpureq-"}
   Slots = {1, 2, 3, 4}
   Depth = 9
 CONSTRAINT EmitHist
